@@ -215,8 +215,13 @@ impl<T: CloseValue> Slot<T> {
     ///
     /// Returns a mutable reference to the inner data if its guard didn't panic, or else None
     pub async fn wait_for_data(&mut self) -> &mut Option<T::Closed> {
-        if let Some(rx) = self.rx.take() {
-            self.data = rx.wait_for_value().await;
+        if let Some(rx) = self.rx.as_mut() {
+            // Await the receiver in place: if this future is dropped while still pending (for
+            // example by a timeout), the receiver must stay in the slot so that the value can
+            // still be picked up when the entry is closed.
+            let data = rx.wait_for_value().await;
+            self.rx = None;
+            self.data = data;
         }
         &mut self.data
     }
@@ -264,8 +269,8 @@ impl<T> Waiting<T> {
     ///
     /// Returns `Some(T)` if the value is received, or `None` if the sender
     /// was dropped without sending a value.
-    async fn wait_for_value(self) -> Option<T> {
-        self.rx.await.ok()
+    async fn wait_for_value(&mut self) -> Option<T> {
+        (&mut self.rx).await.ok()
     }
 }
 
